@@ -12,6 +12,10 @@ CONSTANTS
   EditMenu = {}
   PreMenu = {}
   Objs <- TObjs
+  Planned = FALSE
+  MaxPlan = 36
+  KeepLog = FALSE
+  MenuGuard <- TGuard
 VIEW TView
 POSTCONDITION TraceAccepted
 CHECK_DEADLOCK FALSE
